@@ -140,6 +140,43 @@ def main():
                                       % (f, stage, (a or ("", ""))[1][:3000], k, (b or ("", ""))[1][:3000], f))
                         break
         mdl.close()
+        # --- the command-line tool: the file written for a stage must not depend on WHICH command (history of
+        #     stages computed earlier in the same process) produced it: `scc shrink f` vs `scc codegen --print-ir f ..`
+        okc, cerr = common.build_cli()
+        chk.obligation("build:scc-cli", "build", okc, cerr[-300:])
+        if okc:
+            import shutil
+
+            sample = [f for f in files if "/corpus/" in f or "/examples/" in f][:: (4 if chk.tier == "quick" else 1)][:60]
+            n_cli = 0
+            for f in sample:
+                base = os.path.splitext(os.path.basename(f))[0]
+                outs = {}
+                for hist in (["compile"], ["focus"], ["shrink"], ["linearize"], ["codegen", "--print-ir", "@", "rv64"], ["codegen", "--print-ir", "@", "x86-64"], ["codegen", "--print-ir", "@", "aarch64"]):
+                    wd = os.path.join(WORK, "c17_cli")
+                    shutil.rmtree(wd, ignore_errors=True)
+                    os.makedirs(wd)
+                    shutil.copy(f, os.path.join(wd, base + ".sc"))
+                    argv = [a if a != "@" else base + ".sc" for a in hist] if "@" in hist else hist + [base + ".sc"]
+                    stc, _, errc = common.run_cli(argv, cwd=wd)
+                    for stage in ("compiled", "focused", "shrunk", "linearized"):
+                        pth = os.path.join(wd, "target_scc", stage, base + ".txt")
+                        if os.path.exists(pth):
+                            outs.setdefault(stage, {})[" ".join(hist)] = open(pth, errors="replace").read()
+                n_cli += 1
+                chk.count((f, "cli-histories"))
+                for stage, byhist in outs.items():
+                    vals = list(byhist.items())
+                    for hname, text in vals[1:]:
+                        chk.corr["compared"] += 1
+                        if text != vals[0][1]:
+                            found = True
+                            chk.corr["disagreements"] += 1
+                            chk.impl_oracle_failures.append({"file": f, "stage": stage, "histories": [vals[0][0], hname]})
+                            chk.violation("cli-history:" + stage, "the %s file of %s differs between `scc %s` and `scc %s`" % (stage, os.path.basename(f), vals[0][0], hname),
+                                          "clihist_%s_%s.txt" % (stage, base), "file=%s\nstage=%s\n--- scc %s\n%s\n--- scc %s\n%s\n" % (f, stage, vals[0][0], vals[0][1][:4000], hname, text[:4000]))
+                            break
+            chk.notes["cli_history_programs"] = n_cli
         chk.sample({"file": files[0], "processes": K})
     chk.obligation("oracle:multi-process-byte-equality", "correspondence", chk.corr["disagreements"] == 0,
                    "%d stage comparisons, %d differences" % (chk.corr["compared"], chk.corr["disagreements"]))
